@@ -248,8 +248,22 @@ def oracle_large_prox(case):
     return {"nontrivial": True, "classes": ["hier:" + ("groups" if groups else "rows")]}
 
 
+def _in_training_case():
+    from .c06 import fit_case
+    return fit_case()
+
+
+def _in_training_oracle(case):
+    """the proximal steps reached through the estimators: every shrinkage observed in a real fit must be the minimiser too"""
+    from .c06 import oracle_fit
+    out = oracle_fit(case)
+    out["nontrivial"] = bool(out.get("counts", {}).get("prox_steps", 0) >= 1)
+    return out
+
+
 def subs():
     return [
+        Sub("in_training", _in_training_case(), _in_training_oracle, 120, 4000, "the operators as the sparse estimators apply them after each optimiser step (alpha = 0 and M = 0 included)"),
         Sub("large_matrices", large_prox_case(), oracle_large_prox, 40, 600, "1025-2600 features"),
         Sub("linear_rows", lin_case(False), oracle_linear, 3000, 150000, "row-wise group lasso"),
         Sub("linear_groups", lin_case(True), oracle_linear, 2000, 100000, "group lasso over feature groups"),
